@@ -19,7 +19,10 @@ BUDGET = {"quick": {"cases": 100000, "wall_s": 100, "chunk": 200},
 ASSUMPTIONS = ["only per-process histories are compared, never the order of different "
                "processes within one time step",
                "events at exactly the stop time of run(until=...) / of a failing run may or may "
-               "not be processed"]
+               "not be processed",
+               "env.run(until=event) with an event that fails is not compared: usim.py returns the "
+               "exception (its annotated return type says so), SimPy raises it; the statement "
+               "('returns its value' / 'ends the run with that exception') covers both"]
 LEVEL_TEXT = ("Exploration: every process step's (virtual time, received value or exception), the "
               "return value / exception of env.run, the instants at which callbacks of events "
               "run (exactly once, at the trigger time) and double-trigger errors are compared "
@@ -207,7 +210,7 @@ def _generate(rng, tier):
         gen.serial += 1
         gen.features.add("failure")
         processes.append({"name": "early", "ops": [{"op": "raise", "serial": gen.serial}]})
-    scenario = {"mode": "events", "initial_time": rng.choice([0, 0, 3]),
+    scenario = {"mode": "events", "initial_time": rng.choice([0, 0, 3, -6]),
                 "events": ["E%d" % i for i in range(gen.n_events)], "processes": processes}
     if embedded:
         scenario["embedded"] = True
@@ -505,3 +508,41 @@ def run_case(case):
 
 def check(rec):
     return []
+
+
+def probe_finding(finding):
+    """F20: a process that starts waiting for an event in the time step in which the event
+    failed (triggered, callbacks not yet run) and handles the exception does not save the run."""
+    if finding["id"] != "F20":
+        return False
+    from .. import bind_repo
+    bind_repo()
+    from usim.py import Environment
+
+    class Boom(Exception):
+        pass
+
+    env = Environment()
+    event = env.event()
+    log = []
+
+    def breaker(env):
+        yield env.timeout(1)
+        event.fail(Boom())
+
+    def late_waiter(env):
+        yield env.timeout(1)
+        try:
+            yield event                  # triggered in this very step, not yet processed
+        except Boom:
+            log.append("handled")
+        yield env.timeout(1)
+        log.append("went on")
+
+    env.process(breaker(env))
+    env.process(late_waiter(env))
+    try:
+        env.run()
+    except Boom:
+        return True                      # SimPy: handled by the waiter, the run goes on
+    return log != ["handled", "went on"]
